@@ -66,6 +66,7 @@ struct cfg { std::string coarsening, relax; int ncycle, npre, npost, pre_cycles;
     int aggr_bs = 1;              // coarsening.aggr.block_size: the scalar system seen as aggr_bs unknowns per node (pointwise aggregation)
     bool shared_unsorted = false; // hierarchy built by the non-copying constructor from a matrix whose rows are stored diagonal-first
     std::vector<std::pair<std::string, std::string>> rprm;      // non-default smoother parameters (relax.<name> = value)
+    std::vector<std::pair<std::string, std::string>> cprm;      // non-default coarsening parameters (coarsening.<name> = value)
     std::string rprm_text() const { std::string t; for (auto &kv : rprm) t += (t.empty() ? "" : ",") + kv.first + "=" + kv.second; return t; } };
 
 static boost::property_tree::ptree ptree_of(const cfg &c) {
@@ -75,13 +76,14 @@ static boost::property_tree::ptree ptree_of(const cfg &c) {
     p.put("coarse_enough", c.ce); p.put("max_levels", c.ml); p.put("direct_coarse", c.dc);
     if (c.coarsening == "aggregation" && c.over_interp > 0) p.put("coarsening.over_interp", c.over_interp);
     for (auto &kv : c.rprm) p.put("relax." + kv.first, kv.second);
+    if (c.coarsening == "smoothed_aggregation") for (auto &kv : c.cprm) p.put("coarsening." + kv.first, kv.second);
     if (c.aggr_bs > 1 && c.coarsening != "ruge_stuben") p.put("coarsening.aggr.block_size", c.aggr_bs);
     return p;
 }
 static bool symmetric_smoother(const std::string &r) { return r == "damped_jacobi" || r == "spai0" || r == "gauss_seidel" || r == "ilu0" || r == "iluk" || r == "ilup" || r == "chebyshev"; }
 static void put_cfg(vr::obj &o, const cfg &c, int levels, bool direct) {
     o.str("coarsening", c.coarsening).str("relax", c.relax).i("ncycle", c.ncycle).i("npre", c.npre).i("npost", c.npost).i("pre_cycles", c.pre_cycles)
-     .i("levels", levels).b("direct", direct).b("oi_gt1", c.coarsening == "aggregation" && c.over_interp > 1.0).b("symsm", symmetric_smoother(c.relax)).str("rprm", c.rprm_text()).i("nt", omp_get_max_threads()).i("aggr_bs", c.aggr_bs).b("shared_unsorted", c.shared_unsorted);
+     .i("levels", levels).b("direct", direct).b("oi_gt1", c.coarsening == "aggregation" && c.over_interp > 1.0).b("symsm", symmetric_smoother(c.relax)).str("rprm", c.rprm_text() + (c.cprm.empty() || c.coarsening != "smoothed_aggregation" ? "" : ";esr,power_iters=" + c.cprm[1].second)).i("nt", omp_get_max_threads()).i("aggr_bs", c.aggr_bs).b("shared_unsorted", c.shared_unsorted);
 }
 
 static const char *COARSENINGS[] = {"aggregation", "smoothed_aggregation", "smoothed_aggr_emin", "ruge_stuben"};
@@ -313,6 +315,9 @@ int main(int argc, char **argv) {
             cfg c = random_cfg(g, A->nrows);
             if (r < 36) { c.coarsening = COARSENINGS[r % 4]; c.relax = RELAX[r % 9]; }
             if (r >= 36 || r % 2) random_rprm(g, c);
+            // smoothed aggregation with an estimated spectral radius (Gershgorin / 5 power iterations) in the damping of the
+            // prolongation smoother; decided by r alone so that the random stream of the other cases is unchanged
+            if (c.coarsening == "smoothed_aggregation" && r % 2 == 1) c.cprm = {{"estimate_spectral_radius", "true"}, {"power_iters", (r / 4) % 2 && omp_get_max_threads() <= 2 ? "5" : "0"}};   // (the power method sums in critical-section order: exact scaling only without >2 threads)
             if (A->nrows % 2 == 0 && c.coarsening != "ruge_stuben" && g.coin(0.3)) c.aggr_bs = 2;
             // rows stored diagonal-first, handed over by shared_ptr: only for components that accept unsorted rows
             if ((c.coarsening == "aggregation" || c.coarsening == "smoothed_aggregation") &&
